@@ -40,6 +40,10 @@ UNITS = {
     "refusal": {"driver": None, "harness": None, "gens": None, "props": {"C20": ["CxVerif.Props.C20.Refusal"]}},
     "gluerest": {"driver": None, "harness": None, "gens": None, "props": {
         p: ["CxVerif.Props.C20.GlueTieRest"] for p in ("C01", "C02", "C03", "C05", "C10", "C11", "C17", "C18", "C20")}},
+    "gluesha2drv": {"driver": None, "harness": None, "gens": None, "props": {
+        "C01": ["CxVerif.Props.C01.GlueTieSha2Drv", "CxVerif.Props.C16.GlueTieSha2Disp"], "C02": ["CxVerif.Props.C01.GlueTieSha2Drv"],
+        "C08": ["CxVerif.Props.C01.GlueTieSha2Drv"], "C13": ["CxVerif.Props.C01.GlueTieSha2Drv"],
+        "C16": ["CxVerif.Props.C01.GlueTieSha2Drv", "CxVerif.Props.C16.GlueTieSha2Disp"]}},
     "hashlen": {"driver": "HashLen", "harness": "ops_hashlen", "gens": "hashlen",
                 "props": {"C01": ["CxVerif.Props.C20.HashLen"], "C20": ["CxVerif.Props.C20.HashLen"]}},
     "long": {"driver": "Long", "harness": "ops_long", "gens": "long", "props": {}},
